@@ -1229,6 +1229,283 @@ Section WalkReenc.
   Qed.
 End WalkReenc.
 
+
+(* ---------- the converse: what the full reader accepts after re-encoding it accepted before ---------- *)
+(* ... provided no struct of the message repeats a field id (ids_distinct): of a repeated id only the last occurrence
+   survives any decode, so an earlier occurrence that the full reader would have rejected is gone
+   (full_view_err_repeated_refuted). *)
+Lemma lastp_unique h : forall fs id x, nodup_ids (map fst fs) = true -> In (id, x) fs -> h (id, x) = true ->
+  (forall q, In q fs -> h q = true -> fst q = id) -> lastp h fs = Some x.
+Proof.
+  induction fs as [|[i y] r IH]; intros id x Hnd Hin Hh Hu; [destruct Hin|].
+  cbn [map fst nodup_ids] in Hnd. apply andb_prop in Hnd as [H1 H2]. apply negb_true_iff in H1. cbn [lastp].
+  destruct Hin as [E|Hin].
+  - injection E as -> ->. rewrite (lastp_none h r); [rewrite Hh; reflexivity|].
+    intros [j z] Hq. destruct (h (j, z)) eqn:Ez; [|reflexivity]. exfalso.
+    pose proof (Hu (j, z) (or_intror Hq) Ez) as Ej. cbn [fst] in Ej. subst j.
+    apply (existsb_eqb_false _ _ H1 id); [apply (in_map fst) in Hq; exact Hq|reflexivity].
+  - rewrite (IH id x H2 Hin Hh (fun q Hq => Hu q (or_intror Hq))). reflexivity.
+Qed.
+
+Lemma finish_tv_intro S : forall dfs tvars i f t, nth_error dfs i = Some f -> nth_error tvars i = Some (Some t) ->
+  In (f_id f, t) (finish_tv S dfs tvars).
+Proof.
+  induction dfs as [|g r IH]; intros [|o tvs] i f t Hi Ht; try (destruct i; discriminate).
+  rewrite finish_tv_cons. apply in_or_app. destruct i as [|i]; cbn [nth_error] in Hi, Ht.
+  - injection Hi as ->. injection Ht as ->. left. cbn [entry]. left. reflexivity.
+  - right. eapply IH; eauto.
+Qed.
+
+Section ids_names.
+  Definition idd_fields : list (Z * tval) -> bool :=
+    fix go (fs : list (Z * tval)) : bool := match fs with [] => true | (_, x) :: r => ids_distinct x && go r end.
+  Definition idd_elems : list tval -> bool :=
+    fix go (l : list tval) : bool := match l with [] => true | x :: r => ids_distinct x && go r end.
+  Definition idd_pairs : list (tval * tval) -> bool :=
+    fix go (l : list (tval * tval)) : bool := match l with [] => true | (a, b) :: r => ids_distinct a && ids_distinct b && go r end.
+  Lemma idd_struct fs : ids_distinct (VStruct fs) = nodup_ids (map fst fs) && idd_fields fs.
+  Proof. reflexivity. Qed.
+  Lemma idd_list a l : ids_distinct (VList a l) = idd_elems l.
+  Proof. reflexivity. Qed.
+  Lemma idd_set a l : ids_distinct (VSet a l) = idd_elems l.
+  Proof. reflexivity. Qed.
+  Lemma idd_map a b l : ids_distinct (VMap a b l) = idd_pairs l.
+  Proof. reflexivity. Qed.
+  Lemma idd_fields_in fs id x : idd_fields fs = true -> In (id, x) fs -> ids_distinct x = true.
+  Proof.
+    induction fs as [|[i y] r IH]; intros H Hin; [destruct Hin|]. cbn [idd_fields] in H. apply andb_prop in H as [H1 H2].
+    destruct Hin as [E|Hin]; [injection E as -> ->; exact H1|auto].
+  Qed.
+End ids_names.
+
+Section Conv.
+  Variables S W : schema.
+  Hypothesis HwfS : wf_schema S = true.
+  Hypothesis HwfW : wf_schema W = true.
+  Hypothesis Hsub : sub_schema S W = true.
+  Variables (p : pk) (k : bk) (c : wctx).
+
+  Definition FC (v : tval) : Prop := forall t g gw',
+    no_retyped_variant S t v = true -> viewk S p k c t v = Ok g -> ids_distinct v = true ->
+    view W t (reenc S t v) = Ok gw' -> exists gw, view W t v = Ok gw.
+
+  Lemma fc_leaf v : leaf v = true -> FC v.
+  Proof. intros Hl t g gw' _ _ _ Hw. exists gw'. destruct v; try discriminate Hl; exact Hw. Qed.
+
+  Lemma fc_elems et l : Forall FC l -> walk_elems S (fun _ => true) false et l = true -> idd_elems l = true ->
+    forall ys yw', viewk_elems S p k c et l = Ok ys -> view_elems W et (reenc_elems S et l) = Ok yw' ->
+    exists yw, view_elems W et l = Ok yw.
+  Proof.
+    induction l as [|x r IH]; intros HF Hn Hd ys yw' Hk Hw; [eexists; reflexivity|].
+    inversion HF as [|? ? Hx Hr]; subst. rewrite walk_elems_cons in Hn. apply andb_prop in Hn as [Hn1 Hn2].
+    cbn [idd_elems] in Hd. apply andb_prop in Hd as [Hd1 Hd2].
+    rewrite viewk_elems_cons in Hk. apply bind_ok_inv in Hk as (y & Hy & Hk). apply bind_ok_inv in Hk as (ys' & Hys & _).
+    cbn [reenc_elems] in Hw. rewrite view_elems_cons in Hw. apply bind_ok_inv in Hw as (w' & Hw1 & Hw).
+    apply bind_ok_inv in Hw as (ws' & Hws & _).
+    destruct (Hx et y w' Hn1 Hy Hd1 Hw1) as (w & Ew). destruct (IH Hr Hn2 Hd2 ys' ws' Hys Hws) as (ws & Ews).
+    exists (w :: ws). rewrite view_elems_cons, Ew, Ews. reflexivity.
+  Qed.
+
+  Lemma fc_pairs kt vt l : Forall (fun q => FC (fst q) /\ FC (snd q)) l ->
+    walk_pairs S (fun _ => true) false kt vt l = true -> idd_pairs l = true ->
+    forall ys yw', viewk_pairs S p k c kt vt l = Ok ys -> view_pairs W kt vt (reenc_pairs S kt vt l) = Ok yw' ->
+    exists yw, view_pairs W kt vt l = Ok yw.
+  Proof.
+    induction l as [|[a b] r IH]; intros HF Hn Hd ys yw' Hk Hw; [eexists; reflexivity|].
+    inversion HF as [|? ? [Ha Hb] Hr]; subst. cbn [fst snd] in *.
+    rewrite walk_pairs_cons in Hn. apply andb_prop in Hn as [Hn Hn3]. apply andb_prop in Hn as [Hn1 Hn2].
+    cbn [idd_pairs] in Hd. apply andb_prop in Hd as [Hd Hd3]. apply andb_prop in Hd as [Hd1 Hd2].
+    rewrite viewk_pairs_cons in Hk. apply bind_ok_inv in Hk as (ya & Hya & Hk). apply bind_ok_inv in Hk as (yb & Hyb & Hk).
+    apply bind_ok_inv in Hk as (ys' & Hys & _).
+    cbn [reenc_pairs] in Hw. rewrite view_pairs_cons in Hw. apply bind_ok_inv in Hw as (wa' & Hwa & Hw).
+    apply bind_ok_inv in Hw as (wb' & Hwb & Hw). apply bind_ok_inv in Hw as (ws' & Hws & _).
+    destruct (Ha kt ya wa' Hn1 Hya Hd1 Hwa) as (wa & Ea). destruct (Hb vt yb wb' Hn2 Hyb Hd2 Hwb) as (wb & Eb).
+    destruct (IH Hr Hn3 Hd3 ys' ws' Hys Hws) as (ws & Ews).
+    exists ((wa, wb) :: ws). rewrite view_pairs_cons, Ea, Eb, Ews. reflexivity.
+  Qed.
+
+  Lemma FC_list a l : Forall FC l -> FC (VList a l).
+  Proof.
+    intros HF t g gw' Hn Hk Hd Hw. unfold no_retyped_variant in Hn. rewrite walk_list in Hn. rewrite viewk_list in Hk.
+    rewrite reenc_list in Hw. rewrite idd_list in Hd. destruct (resolve S t) eqn:Er; try discriminate Hk.
+    rewrite view_list, <- (sub_resolve S W Hsub), Er in Hw |- *. apply andb_prop in Hn as [_ Hn].
+    apply bind_ok_inv in Hk as (ys & Hys & _). apply bind_ok_inv in Hw as (yw' & Hyw' & _).
+    destruct (fc_elems _ l HF Hn Hd ys yw' Hys Hyw') as (yw & E). rewrite E. eexists; reflexivity.
+  Qed.
+  Lemma FC_set a l : Forall FC l -> FC (VSet a l).
+  Proof.
+    intros HF t g gw' Hn Hk Hd Hw. unfold no_retyped_variant in Hn. rewrite walk_set in Hn. rewrite viewk_set in Hk.
+    rewrite reenc_set in Hw. rewrite idd_set in Hd. destruct (resolve S t) eqn:Er; try discriminate Hk.
+    rewrite view_set, <- (sub_resolve S W Hsub), Er in Hw |- *. apply andb_prop in Hn as [_ Hn].
+    apply bind_ok_inv in Hk as (ys & Hys & _). apply bind_ok_inv in Hw as (yw' & Hyw' & _).
+    destruct (fc_elems _ l HF Hn Hd ys yw' Hys Hyw') as (yw & E). rewrite E. eexists; reflexivity.
+  Qed.
+  Lemma FC_map ka va l : Forall (fun q => FC (fst q) /\ FC (snd q)) l -> FC (VMap ka va l).
+  Proof.
+    intros HF t g gw' Hn Hk Hd Hw. unfold no_retyped_variant in Hn. rewrite walk_map in Hn. rewrite viewk_map in Hk.
+    rewrite reenc_map in Hw. rewrite idd_map in Hd. destruct (resolve S t) eqn:Er; try discriminate Hk.
+    rewrite view_map, <- (sub_resolve S W Hsub), Er in Hw |- *. apply andb_prop in Hn as [_ Hn].
+    apply bind_ok_inv in Hk as (ys & Hys & _). apply bind_ok_inv in Hw as (yw' & Hyw' & _).
+    destruct (fc_pairs _ _ l HF Hn Hd ys yw' Hys Hyw') as (yw & E). rewrite E. eexists; reflexivity.
+  Qed.
+
+  Lemma fc_fields dfs kp dfw fs rS varsW' outW' :
+    nodup_ids (map f_id dfs) = true -> nodup_ids (map f_id dfw) = true ->
+    (forall f, In f dfs -> exists g, In g dfw /\ field_sub f g = true) ->
+    (kp = false -> forall g, In g dfw -> exists f, In f dfs /\ f_id f = f_id g) ->
+    Forall (fun q => FC (snd q)) fs -> nodup_ids (map fst fs) = true -> idd_fields fs = true ->
+    walk_fields S (fun _ => true) false dfs fs = true ->
+    viewk_fields S p k c dfs kp fs (map init_var dfs) [] = Ok rS ->
+    let RR := reenc_fields S dfs kp fs (map (init_tvar S) dfs) [] in
+    view_fields W dfw (finish_tv S dfs (fst RR) ++ snd RR) (map init_var dfw) = Ok varsW' ->
+    finish_fields dfw varsW' = Ok outW' ->
+    exists varsW outW, view_fields W dfw fs (map init_var dfw) = Ok varsW /\ finish_fields dfw varsW = Ok outW.
+  Proof.
+    intros HndS HndW Hall Hnk HF Hndf Hidd Hn Hk RR Hw' Hfin'.
+    destruct (rf_char S dfs HndS kp fs (map (init_tvar S) dfs) []) as (Rf1 & Rf2 & Rf3). fold RR in Rf1, Rf2, Rf3.
+    cbn [app] in Rf2.
+    assert (Hcount : forall f g, In f dfs -> In g dfw -> f_id f = f_id g -> field_sub f g = true).
+    { intros f g Hf Hg E. destruct (Hall f Hf) as (g' & Hg' & Hs). destruct (field_sub_inv _ _ Hs) as (E' & _).
+      rewrite (nodup_same_id dfw g g' HndW Hg Hg' ltac:(congruence)). exact Hs. }
+    assert (Hcar : forall f g q, field_sub f g = true -> carries S f q = carries W g q).
+    { intros f g q Hs. destruct (field_sub_inv _ _ Hs) as (E1 & E2 & _). unfold carries.
+      rewrite E1, E2, (sub_ttype S W Hsub). reflexivity. }
+    (* step 1: every wire field the full reader knows has a view *)
+    assert (H1 : exists varsW, view_fields W dfw fs (map init_var dfw) = Ok varsW).
+    { apply vf_build. intros id x j g Hin Em.
+      destruct (matched_carried W dfw HndW _ _ _ _ Em) as [Hj HcW]. pose proof (nth_error_In _ _ Hj) as Hg.
+      destruct (match_field S dfs 0 (Some id) (ttype_of x)) as [[i f]|] eqn:EmS.
+      - destruct (matched_carried S dfs HndS _ _ _ _ EmS) as [Hi HcS]. pose proof (nth_error_In _ _ Hi) as Hf.
+        destruct (carries_inv _ _ _ HcS) as [E1 _]. destruct (carries_inv _ _ _ HcW) as [E2 _]. cbn [fst] in E1, E2.
+        pose proof (Hcount f g Hf Hg ltac:(congruence)) as Hs. destruct (field_sub_inv _ _ Hs) as (_ & Ety & _).
+        assert (El : lastp (carries S f) fs = Some x).
+        { apply (lastp_unique _ fs id x Hndf Hin HcS). intros q _ Hq. destruct (carries_inv _ _ _ Hq) as [E _]. congruence. }
+        assert (Hli : (i < length (map (init_tvar S) dfs))%nat) by (rewrite map_length; apply nth_error_Some; congruence).
+        pose proof (Rf1 i f Hi Hli) as Hnth. rewrite El in Hnth.
+        pose proof (finish_tv_intro S dfs (fst RR) i f _ Hi Hnth) as HinL.
+        assert (HcW2 : carries W g (f_id f, reenc S (f_ty f) x) = true).
+        { destruct (carries_inv _ _ _ HcW) as [_ Et]. cbn [snd] in Et.
+          apply carries_intro; [cbn [fst]; congruence|cbn [snd]; rewrite reenc_ttype; exact Et]. }
+        destruct (vf_all_ok W dfw _ _ _ Hw' (f_id f) (reenc S (f_ty f) x) j g (in_or_app _ _ _ (or_introl HinL))
+                    (carried_matched W dfw HndW _ _ _ _ Hj HcW2)) as (y' & Hy').
+        rewrite Forall_forall in HF. specialize (HF _ Hin). cbn [snd] in HF.
+        destruct (vkf_all_ok S p k c dfs kp fs _ _ _ Hk id x i f Hin EmS) as (yk & Hyk).
+        pose proof (walk_fields_in _ _ _ _ _ _ _ Hn Hin) as Hwf. unfold walk_field in Hwf. rewrite EmS in Hwf.
+        rewrite <- Ety in *. exact (HF _ _ _ Hwf Hyk (idd_fields_in _ _ _ Hidd Hin) Hy').
+      - assert (Ekp : kp = true).
+        { destruct kp; [reflexivity|]. destruct (Hnk eq_refl g Hg) as (f & Hf & E). exfalso.
+          pose proof (Hcount f g Hf Hg E) as Hs. rewrite <- (Hcar f g (id, x) Hs) in HcW.
+          destruct (In_nth_error _ _ Hf) as (i & Hi). rewrite (carried_matched S dfs HndS _ _ _ _ Hi HcW) in EmS. discriminate. }
+        assert (HinL : In (id, x) (snd RR)).
+        { rewrite Rf2, Ekp. apply filter_In. split; [exact Hin|]. unfold unmatched. cbn [fst snd]. rewrite EmS. reflexivity. }
+        exact (vf_all_ok W dfw _ _ _ Hw' id x j g (in_or_app _ _ _ (or_intror HinL)) Em). }
+    destruct H1 as (varsW & Hw). exists varsW.
+    (* step 2: every required field the re-encoded message carries the original carries *)
+    assert (Hlen : length varsW = length dfw) by (rewrite (view_fields_length _ _ _ _ _ Hw); apply map_length).
+    destruct (finish_present dfw varsW Hlen) as (outW & Hfin); [|exists outW; auto].
+    intros j g Hj Hdf Hrq. pose proof (nth_error_In _ _ Hj) as Hg.
+    assert (Hlj : (j < length (map init_var dfw))%nat) by (rewrite map_length; apply nth_error_Some; congruence).
+    apply (view_fields_carried W dfw HndW fs _ _ j g Hw Hj Hlj).
+    (* the L-run has the variable set *)
+    pose proof (vf_char W dfw HndW _ _ _ Hw' j g Hj Hlj) as A2. rewrite (init_var_nth _ _ _ Hj) in A2.
+    destruct (lastp (carries W g) (finish_tv S dfs (fst RR) ++ snd RR)) as [t|] eqn:El.
+    2:{ exfalso. unfold init_var in A2. rewrite Hdf in A2.
+        assert (Hl' : length varsW' = length dfw) by (rewrite (view_fields_length _ _ _ _ _ Hw'); apply map_length).
+        exact (finish_missing dfw varsW' j g Hl' Hj A2 Hdf Hrq _ Hfin'). }
+    destruct (lastp_in _ _ _ El) as (id & HinL & HcL).
+    apply existsb_exists.
+    destruct (reenc_entries S dfs kp fs HndS id t HinL) as [(i & f & x & id' & Hi & -> & -> & Hin' & EmS)|[(f & b & d & Hf & -> & Ed & ->)|[Hin' _]]].
+    - exists (id', x). split; [exact Hin'|]. destruct (matched_carried S dfs HndS _ _ _ _ EmS) as [_ HcS].
+      destruct (carries_inv _ _ _ HcL) as [E _]. cbn [fst] in E.
+      rewrite <- (Hcar f g _ (Hcount f g (nth_error_In _ _ Hi) Hg (eq_sym E))). exact HcS.
+    - exfalso. destruct (carries_inv _ _ _ HcL) as [E _]. cbn [fst] in E.
+      pose proof (Hcount f g Hf Hg (eq_sym E)) as Hs. destruct (field_sub_inv _ _ Hs) as (_ & _ & Edf). rewrite Ed, Hdf in Edf. exact Edf.
+    - exists (id, t). auto.
+  Qed.
+
+  Lemma FC_struct fs : Forall (fun q => FC (snd q)) fs -> FC (VStruct fs).
+  Proof.
+    intros HF t g0 gw' Hn Hk Hd Hw. unfold no_retyped_variant in Hn. rewrite walk_struct in Hn. rewrite viewk_struct in Hk.
+    rewrite reenc_struct in Hw. rewrite idd_struct in Hd. apply andb_prop in Hd as [Hndf Hidd].
+    destruct (resolve S t) eqn:Er; try discriminate Hk.
+    assert (ErW : resolve W t = TyRef n) by (rewrite <- (sub_resolve S W Hsub); exact Er).
+    destruct (lookup S n) as [[dfs kp ia|vs vok kp| |]|] eqn:ElS; try discriminate Hk.
+    - destruct (sub_struct S W Hsub _ _ _ _ ElS) as (dfw & kpw & iaw & ElW & Hall & Hnk).
+      destruct (wf_struct S HwfS _ _ _ _ ElS) as [HndS _]. destruct (wf_struct W HwfW _ _ _ _ ElW) as [HndW _].
+      apply bind_ok_inv in Hk as (rS & HkS & _). cbv zeta in Hw. rewrite view_struct, ErW, ElW in Hw |- *.
+      apply bind_ok_inv in Hw as (varsW' & Hw' & Hw). apply bind_ok_inv in Hw as (outW' & Hfin' & _).
+      destruct (fc_fields dfs kp dfw fs rS varsW' outW' HndS HndW Hall Hnk HF Hndf Hidd Hn HkS Hw' Hfin') as (varsW & outW & E1 & E2).
+      rewrite E1. cbn [bind]. rewrite E2. eexists; reflexivity.
+    - destruct (sub_union S W Hsub _ _ _ _ ElS) as (vw & vow & kpw & ElW & Hall & Hnk).
+      pose proof (wf_union_nodup W HwfW _ _ _ _ ElW) as HndW.
+      destruct kp.
+      + apply bind_ok_inv in Hk as (retk & Hvk & _). destruct fs as [|[id x] r]; [exists gw'; exact Hw|].
+        inversion HF as [|? ? Hx Hr]; subst. cbn [snd] in Hx. rewrite walk_variants_cons in Hn. apply andb_prop in Hn as [Hn1 _].
+        cbn [idd_fields] in Hidd. apply andb_prop in Hidd as [Hd1 _].
+        rewrite viewk_variantsk_cons in Hvk. destruct (variant_by_id S vs id) as [vt|] eqn:Ev.
+        * apply bind_ok_inv in Hvk as (y & Hy & Hvk). apply (vkk_after S p k c) in Hvk as [-> _]; [|discriminate].
+          destruct (known_sub S W Hsub vs vw id x vt HndW Hall Hn1 Ev) as (Hkn & Hfw & Hty).
+          rewrite view_struct, ErW, ElW in Hw |- *. rewrite view_variants_cons, reenc_ttype, Hkn in Hw. rewrite view_variants_cons, Hkn.
+          apply bind_ok_inv in Hw as (ret & Hv & Hw). apply bind_ok_inv in Hv as (yw' & Hyw' & Hv). injection Hv as <-.
+          destruct (Hx vt y yw' (variant_walk2 S vs id x vt Hn1 Ev) Hy Hd1 Hyw') as (yw & Eyw). rewrite Eyw. cbn [bind view_variants].
+          eexists; reflexivity.
+        * apply (vkk_after S p k c) in Hvk as [-> _]; [|discriminate]. exists gw'. exact Hw.
+      + apply bind_ok_inv in Hk as (retk & Hvk & _). rewrite view_struct, ErW, ElW in Hw |- *.
+        apply bind_ok_inv in Hw as (ret' & Hv' & Hu').
+        (* the full reader knows exactly the reader's variants *)
+        assert (G : forall r0 retk0, viewk_variants S p k c vs fs r0 = Ok retk0 ->
+                  forall ret0', view_variants W vw (reenc_variants S vs fs) None = Ok ret0' -> r0 = None ->
+                  exists ret0, view_variants W vw fs None = Ok ret0 /\ (ret0 = None <-> ret0' = None)).
+        { clear Hu' Hv' Hvk ret' retk. induction fs as [|[id x] r IH]; intros r0 retk0 Hvk ret0' Hv' ->.
+          - injection Hv' as <-. exists None. split; [reflexivity|tauto].
+          - inversion HF as [|? ? Hx Hr]; subst. cbn [snd] in Hx. rewrite walk_variants_cons in Hn. apply andb_prop in Hn as [Hn1 Hn2].
+            cbn [idd_fields] in Hidd. apply andb_prop in Hidd as [Hd1 Hd2].
+            cbn [map fst nodup_ids] in Hndf. apply andb_prop in Hndf as [_ Hndf2].
+            rewrite viewk_variants_cons in Hvk. cbn [reenc_variants] in Hv'. rewrite view_variants_cons.
+            destruct (variant_by_id S vs id) as [vt|] eqn:Ev.
+            + apply bind_ok_inv in Hvk as (y & Hy & Hvk).
+              destruct (known_sub S W Hsub vs vw id x vt HndW Hall Hn1 Ev) as (Hkn & Hfw & Hty). rewrite Hkn.
+              rewrite view_variants_cons, reenc_ttype, Hkn in Hv'. apply bind_ok_inv in Hv' as (yw' & Hyw' & Hv'). injection Hv' as <-.
+              destruct (Hx vt y yw' (variant_walk2 S vs id x vt Hn1 Ev) Hy Hd1 Hyw') as (yw & Eyw). rewrite Eyw. cbn [bind].
+              (* nothing the full reader knows follows: the reader saw no second known field *)
+              assert (Hrest : forall r1, view_variants W vw r r1 = Ok r1).
+              { clear - Hvk Hn2 Hall Hnk HndW Hsub. revert Hvk Hn2. generalize (id, y). induction r as [|[i2 x2] r2 IH2]; intros q0 Hvk Hn2 r1; [reflexivity|].
+                rewrite walk_variants_cons in Hn2. apply andb_prop in Hn2 as [Hn21 Hn22].
+                rewrite viewk_variants_cons in Hvk. rewrite view_variants_cons.
+                destruct (variant_by_id S vs i2) as [vt2|] eqn:Ev2; [discriminate|].
+                assert (Hkn2 : known_variant W vw i2 (ttype_of x2) = None).
+                { unfold known_variant. destruct (find_variant vw i2) as [t'|] eqn:Efw; [|reflexivity].
+                  destruct (Hnk eq_refl _ _ (find_variant_in _ _ _ Efw)) as (t'' & Hin).
+                  unfold variant_by_id in Ev2. destruct (find_variant vs i2) as [t3|] eqn:Efs.
+                  - pose proof (find_variant_nodup vw HndW i2 t3 (Hall _ _ (find_variant_in _ _ _ Efs))) as E. rewrite Efw in E.
+                    injection E as ->. rewrite <- (sub_resolve S W Hsub). destruct (is_void (resolve S t3)); [reflexivity|discriminate].
+                  - exfalso. exact (find_variant_none _ _ Efs _ Hin). }
+                rewrite Hkn2. eapply IH2; eauto. }
+              rewrite Hrest. eexists. split; [reflexivity|]. split; discriminate.
+            + assert (Hkn2 : known_variant W vw id (ttype_of x) = None).
+              { unfold known_variant. destruct (find_variant vw id) as [t'|] eqn:Efw; [|reflexivity].
+                destruct (Hnk eq_refl _ _ (find_variant_in _ _ _ Efw)) as (t'' & Hin).
+                unfold variant_by_id in Ev. destruct (find_variant vs id) as [t3|] eqn:Efs.
+                - pose proof (find_variant_nodup vw HndW id t3 (Hall _ _ (find_variant_in _ _ _ Efs))) as E. rewrite Efw in E.
+                  injection E as ->. rewrite <- (sub_resolve S W Hsub). destruct (is_void (resolve S t3)); [reflexivity|discriminate].
+                - exfalso. exact (find_variant_none _ _ Efs _ Hin). }
+              rewrite Hkn2. exact (IH Hr Hn2 Hndf2 Hd2 None retk0 Hvk ret0' Hv' eq_refl). }
+        destruct (G None retk Hvk ret' Hv' eq_refl) as (ret0 & E0 & Hiff). rewrite E0. cbn [bind].
+        unfold union_result in Hu' |- *. destruct ret0 as [[i0 y0]|]; [eexists; reflexivity|].
+        destruct ret' as [[i1 y1]|]; [discriminate (proj1 Hiff eq_refl)|]. exists gw'. exact Hu'.
+  Qed.
+
+  Theorem FC_all v : FC v.
+  Proof.
+    induction v using tval_ind'; try (apply fc_leaf; reflexivity).
+    - apply FC_struct; assumption.
+    - apply FC_list; assumption.
+    - apply FC_set; assumption.
+    - apply FC_map; assumption.
+  Qed.
+End Conv.
+
+
 (* ---------- end to end: the emitted decoder of the full schema on the re-encoded bytes ---------- *)
 (* reenc keeps a message in the C08 domain of the full reader *)
 Theorem reenc_dom : forall S W p k c T tv g,
@@ -1266,4 +1543,84 @@ Proof.
   exists b, gw'. split; [exact He|]. split; [exact Hdf|]. intros fuel r rcx Hf Hi.
   specialize (Hr fuel r rcx Hf Hi). rewrite Hty, (sub_ttype S W Hsub) in Hr.
   rewrite (EvoTopP.evo_refines W p fuel T _ _ _ Hr (proj2 Hi) HdW HnW), Hv. reflexivity.
+Qed.
+
+(* ---------- the Err direction ---------- *)
+(* what the full reader accepts after the decode / re-encode it accepted before, when no struct repeats a field id *)
+Theorem full_view_conv : forall S W p k c T tv g gw',
+  wf_schema S = true -> wf_schema W = true -> sub_schema S W = true ->
+  no_retyped_variant S T tv = true -> viewk S p k c T tv = Ok g -> ids_distinct tv = true ->
+  view W T (reenc S T tv) = Ok gw' ->
+  exists gw, view W T tv = Ok gw /\ dfill W T gw gw'.
+Proof.
+  intros S W p k c T tv g gw' HwfS HwfW Hsub Hn Hk Hd Hw'.
+  destruct (FC_all S W HwfS HwfW Hsub p k c tv T g gw' Hn Hk Hd Hw') as (gw & Hw). exists gw. split; [exact Hw|].
+  destruct (full_view S W p k c T tv g gw HwfS HwfW Hsub Hn Hk Hw) as (gw2 & Hw2 & Hdf). rewrite Hw' in Hw2. injection Hw2 as <-. exact Hdf.
+Qed.
+
+(* hence: what the full reader REJECTS it still rejects after the decode / re-encode *)
+Theorem full_view_err : forall S W p k c T tv g e,
+  wf_schema S = true -> wf_schema W = true -> sub_schema S W = true ->
+  no_retyped_variant S T tv = true -> viewk S p k c T tv = Ok g -> ids_distinct tv = true ->
+  view W T tv = Err e -> exists e', view W T (reenc S T tv) = Err e'.
+Proof.
+  intros S W p k c T tv g e HwfS HwfW Hsub Hn Hk Hd Hw.
+  destruct (view W T (reenc S T tv)) as [gw'|e'|q] eqn:E; [|eauto|exfalso; exact (EvoErrP.view_np W (reenc S T tv) T q E)].
+  destruct (full_view_conv S W p k c T tv g gw' HwfS HwfW Hsub Hn Hk Hd E) as (gw & Hw2 & _). congruence.
+Qed.
+
+(* ... with the same error class on input of the declared shape (the only class there is InvalidData: a required field
+   absent, a union with no / several known variants, hereditarily) *)
+Theorem full_view_err_class : forall S W p k c T tv g e,
+  wf_schema S = true -> wf_schema W = true -> sub_schema S W = true -> ty_closed W T = true ->
+  wt tv = true -> ttype_of tv = ttype_of_ty S T ->
+  evo_dom S T tv = true -> no_retyped_variant S T tv = true -> empty_elems_ok S T tv = true ->
+  evo_dom W T tv = true -> no_retyped_variant W T tv = true ->
+  viewk S p k c T tv = Ok g -> ids_distinct tv = true ->
+  view W T tv = Err e -> e = EInvalidData /\ view W T (reenc S T tv) = Err EInvalidData.
+Proof.
+  intros S W p k c T tv g e HwfS HwfW Hsub Hcl Hwt Hty Hd Hn Hee HdW HnW Hk Hdist Hw.
+  assert (HtyW : ttype_of tv = ttype_of_ty W T) by (rewrite Hty; apply (sub_ttype S W Hsub)).
+  split; [exact (EvoErrP.view_error_class W HwfW tv T e Hcl Hwt HtyW HdW Hw)|].
+  destruct (full_view_err S W p k c T tv g e HwfS HwfW Hsub Hn Hk Hdist Hw) as (e' & E). rewrite E. f_equal.
+  destruct (reenc_dom S W p k c T tv g HwfS HwfW Hsub Hn Hk HdW HnW) as [HdW' _].
+  apply (EvoErrP.view_error_class W HwfW (reenc S T tv) T e' Hcl); auto.
+  - exact (KeepWtP.reenc_wt S tv T HwfS Hwt Hty Hd Hn Hee).
+  - rewrite reenc_ttype. exact HtyW.
+Qed.
+
+(* without ids_distinct the Err direction is false: Top {1: required i32; 3: optional Sub}, Sub {1: optional bool}; the
+   full schema's Sub also has 9: required i32.  The message carries field 3 TWICE: first a Sub without field 9 (malformed
+   for the full reader), then a complete one.  Every reader keeps the last occurrence; so does the re-encoded message. *)
+Definition Sd : schema :=
+  [ DStruct [mkField 1 Required TyI32 None; mkField 3 Optional (TyRef 1) None] true false;
+    DStruct [mkField 1 Optional TyBool None] true false ].
+Definition Wd : schema :=
+  [ DStruct [mkField 1 Required TyI32 None; mkField 3 Optional (TyRef 1) None] true false;
+    DStruct [mkField 1 Optional TyBool None; mkField 9 Required TyI32 None] true false ].
+Definition tvd : tval :=
+  VStruct [ (1, VI32 7); (3, VStruct [(1, VBool true)]); (3, VStruct [(1, VBool false); (9, VI32 5)]) ].
+
+Example full_view_err_repeated_refuted :
+  wf_schema Sd = true /\ wf_schema Wd = true /\ sub_schema Sd Wd = true /\ wt tvd = true /\
+  no_retyped_variant Sd (TyRef 0) tvd = true /\ evo_dom Wd (TyRef 0) tvd = true /\ ids_distinct tvd = false /\
+  (exists g, viewk Sd PBinary BContig w0 (TyRef 0) tvd = Ok g) /\
+  view Wd (TyRef 0) tvd = Err EInvalidData /\
+  reenc Sd (TyRef 0) tvd = VStruct [ (1, VI32 7); (3, VStruct [(1, VBool false); (9, VI32 5)]) ] /\
+  view Wd (TyRef 0) (reenc Sd (TyRef 0) tvd) = Ok (GStruct [(1, GI32 7); (3, GStruct [(1, GBool false); (9, GI32 5)] [])] []).
+Proof. repeat split; try (vm_compute; reflexivity). eexists. vm_compute. reflexivity. Qed.
+
+(* non-vacuity of the Err direction: the same reader and full schema, a message whose only Sub lacks field 9 *)
+Example full_view_err_nonvacuous :
+  let tv := VStruct [ (1, VI32 7); (3, VStruct [(1, VBool true); (8, VDouble 0)]) ] in
+  ids_distinct tv = true /\ view Wd (TyRef 0) tv = Err EInvalidData /\
+  view Wd (TyRef 0) (reenc Sd (TyRef 0) tv) = Err EInvalidData /\
+  (forall e, view Wd (TyRef 0) tv = Err e -> exists e', view Wd (TyRef 0) (reenc Sd (TyRef 0) tv) = Err e').
+Proof.
+  cbv zeta. split; [reflexivity|]. split; [vm_compute; reflexivity|]. split; [vm_compute; reflexivity|].
+  intros e He. assert (Hk : exists g, viewk Sd PBinary BContig w0 (TyRef 0) (VStruct [ (1, VI32 7); (3, VStruct [(1, VBool true); (8, VDouble 0)]) ]) = Ok g)
+    by (eexists; vm_compute; reflexivity).
+  destruct Hk as (g & Hk).
+  exact (full_view_err Sd Wd PBinary BContig w0 (TyRef 0) (VStruct [ (1, VI32 7); (3, VStruct [(1, VBool true); (8, VDouble 0)]) ]) g e
+           eq_refl eq_refl eq_refl eq_refl Hk eq_refl He).
 Qed.
